@@ -1524,9 +1524,21 @@ impl<'l> CelCompiler<'l> {
         let r = i.run_raw(&bc, true);
 
         match r {
-            Ok(v) => CompiledProg::with_const(v),
-            Err(_) => CompiledProg::with_bytecode(bc),
+            // A collection holding an error is not a result of the call but
+            // of something missing at compile time (an unbound variable read
+            // inside a macro body for instance): leave the call to run time.
+            Ok(v) if !contains_error(&v) => CompiledProg::with_const(v),
+            _ => CompiledProg::with_bytecode(bc),
         }
+    }
+}
+
+fn contains_error(val: &CelValue) -> bool {
+    match val {
+        CelValue::Err(_) => true,
+        CelValue::List(l) => l.iter().any(contains_error),
+        CelValue::Map(m) => m.values().any(contains_error),
+        _ => false,
     }
 }
 
